@@ -36,7 +36,10 @@ CLAIMED["C04"] = ("exploration", "3", "seeded producer/consumer histories (arith
 CLAIMED["C13"] = ("exploration", "3", "seeded sessions of jackknife/bootstrap exports and imports with global-RNG perturbations in between; every default (name-seeded) random-number table is recomputed by a partner interpreter under another PYTHONHASHSEED and RNG state; exact leave-one-out / resampled-mean oracles",
          "deterministic simulation: RNG state and process identity as part of the history + partner interpreter",
          "the name-seeding clause is the simulator-specific one, the resampling identities ride along as sampled inputs")
-PENDING = {k: "claimed in DESIGN.md (deterministic simulation); check under construction, not yet registered" for k in ["C11","C12"]}
+CLAIMED["C11"] = ("exploration", "3", "seeded exporter/importer sessions over every json-based transport (strings, plain/gz files, Obs.dump/Corr.dump, dict files, csv and sqlite data-frame columns) and pickle, against real files through seams for the wall clock, user/host identity and write faults (ENOSPC/EIO at the k-th byte), with overwrite/append histories and import in a partner interpreter; every document validated against the shipped schema; deep comparison of every re-imported attribute and of the subsequent analysis",
+         "deterministic simulation with fault injection: archive world (storage faults, clock, identity, second interpreter) + reference model of the exported objects",
+         "pandas csv writer and sqlite file I/O real and not intercepted; tolerance 64 eps for the delta+offset representation; sampling, not proof")
+PENDING = {k: "claimed in DESIGN.md (deterministic simulation); check under construction, not yet registered" for k in ["C12"]}
 def main():
     checks = []
     for pid, (cat, ref, text, tech, note) in sorted(CLAIMED.items()):
